@@ -45,6 +45,9 @@ func (c nodeContext) RenderSequence(w io.Writer, seq []Node) Error {
 
 func (n *BlockNode) render(w *trimWriter, ctx nodeContext) Error {
 	verifhook.Step(verifhook.SiteRenderNode)
+	if err := w.Barrier(); err != nil {
+		return wrapRenderError(err, n)
+	}
 	cd, ok := ctx.config.findBlockDef(n.Name)
 	if !ok || cd.parser == nil {
 		// this should have been detected during compilation; it's an implementation error if it happens here
@@ -59,6 +62,9 @@ func (n *BlockNode) render(w *trimWriter, ctx nodeContext) Error {
 }
 
 func (n *RawNode) render(w *trimWriter, ctx nodeContext) Error {
+	if err := w.Barrier(); err != nil {
+		return wrapRenderError(err, invalidLoc)
+	}
 	for _, s := range n.slices {
 		_, err := io.WriteString(w, s)
 		if err != nil {
@@ -70,6 +76,9 @@ func (n *RawNode) render(w *trimWriter, ctx nodeContext) Error {
 
 func (n *ObjectNode) render(w *trimWriter, ctx nodeContext) Error {
 	verifhook.Step(verifhook.SiteRenderNode)
+	if err := w.Barrier(); err != nil {
+		return wrapRenderError(err, n)
+	}
 	value, err := ctx.Evaluate(n.expr)
 	if err != nil {
 		return wrapRenderError(err, n)
@@ -94,6 +103,9 @@ func (n *SeqNode) render(w *trimWriter, ctx nodeContext) Error {
 
 func (n *TagNode) render(w *trimWriter, ctx nodeContext) Error {
 	verifhook.Step(verifhook.SiteRenderNode)
+	if err := w.Barrier(); err != nil {
+		return wrapRenderError(err, n)
+	}
 	err := wrapRenderError(n.renderer(w, rendererContext{ctx, n, nil}), n)
 	return err
 }
